@@ -204,6 +204,22 @@ func checkLeaseSticky(r *Run, k *kvCtx) {
 		}
 	}
 	r.Ob("C06.R6.lease", "getLease returns the stored digest's leaseholder on every path after a successful read", p.Position(fn.Pos()), good && n > 0, detail)
+	// allocate consults the stored lease before it accepts any operation
+	alloc := p.Func(kvPkg, "leaseAllocator", "allocate")
+	if alloc == nil {
+		r.Undecide("C06.R6: leaseAllocator.allocate not found")
+		return
+	}
+	ac := p.CFG(alloc)
+	q, avis := ac.ReachAvoiding([]Point{ac.Entry()}, nil, func(n ast.Node) bool { return nodeHasCall(alloc, n, calleeIs(fn)) })
+	var path []string
+	for _, ex := range ac.Exits() {
+		if ex.Return != nil && len(ex.Return.Results) == 2 && isNilIdent(alloc, ex.Return.Results[1]) && avis[ex.P] {
+			path = q.PathTo(ex.P)
+		}
+	}
+	r.ObPath("C06.R6.lease", "allocate accepts an operation only after reading the key's stored lease", p.Position(alloc.Pos()), path == nil,
+		"an operation naming its own node as leaseholder is accepted without the ErrLeaseNotTransferable test: two nodes then stamp versions of one key from different counters", path)
 }
 
 func checkApplyGuard(r *Run, k *kvCtx, rule string) {
